@@ -1032,8 +1032,8 @@ class Engine:
     }
     assumptions = [
         "x86-64 with SSE; ldmxcsr/stmxcsr executable from an mmap'ed page",
-        "exceptions are injected into context bodies, not inside __enter__/__exit__ themselves",
-        "LIFO nesting only; one context object is never shared between threads or re-entered while active",
+        "exceptions are injected into context bodies; inside __enter__/__exit__ only the interpreter's own RecursionError (deep statements) and rejected specifications occur",
+        "LIFO nesting only; a context object is never shared between threads; re-entering an active pre-built object is generated and, being rejected by the library, counts as a failed operation",
     ]
 
     def preload(self):
